@@ -104,6 +104,19 @@ def same(a, b):
     return bool(a == b)
 
 
+def unsigned_zeros(v):
+    """the value with the sign of every zero component dropped (-0.0 -> 0.0)"""
+    try:
+        if isinstance(v, (complex, np.complexfloating)):
+            re_, im_ = v.real, v.imag
+            return type(v)(complex(re_ if re_ != 0 else abs(re_), im_ if im_ != 0 else abs(im_)))
+        if isinstance(v, (float, np.floating)) and v == 0:
+            return type(v)(abs(v))
+    except Exception:
+        pass
+    return v
+
+
 def describe(v):
     return "%s:%r" % (type(v).__name__, v)
 
@@ -263,6 +276,12 @@ def run_case(case, fail, stats):
             return
         got = outcome(node._get_value)
         want = outcome(lambda: env.direct(t))
+        # the value itself, bit for bit, for C20 (the same case under the other build / hash seed)
+        if got[0] == "ok" and isinstance(got[1], (int, float, complex, bool, np.generic)):
+            case["_val"] = describe(got[1])
+            case["_val0"] = describe(unsigned_zeros(got[1]))
+        else:
+            case["_val"] = case["_val0"] = got[1] if got[0] == "exc" else type(got[1]).__name__
         stats["eval_cases"] += 1
         stats["eval_exc"] += want[0] == "exc"
         if want[0] == "ok" and isinstance(want[1], float) and want[1] != want[1]:
@@ -917,6 +936,9 @@ def cases_c04(rng, n):
              ({"int": 5}, {"float": (0.0).hex()}), ({"bool": True}, {"int": 3}), ({"complex": [(1.0).hex(), (2.0).hex()]}, {"int": 2}),
              ({"np": ["float64", 1.5]}, {"int": 2}), ({"np": ["int64", 6]}, {"np": ["int64", 4]}), ({"float": (7.25).hex()}, {"float": (-0.5).hex()}),
              ({"int": 2}, {"int": -1}), ({"int": 0}, {"int": 0}),
+             # signed zeros (IEEE: 0.0 * -3 = -0.0, -0.0 + 0 = 0.0): the value is == either way, the bits are C20's subject
+             ({"float": (0.0).hex()}, {"int": -3}), ({"float": (-0.0).hex()}, {"int": 0}), ({"float": (-0.0).hex()}, {"int": -1}),
+             ({"int": 0}, {"float": (-0.0).hex()}),
              ({"int": 10 ** 400}, {"float": (2.5).hex()}), ({"float": (3.0).hex()}, {"int": 10 ** 400}), ({"int": 10 ** 400}, {"int": 7})]
     for op in BIN:
         if op == "matmul":
@@ -1218,6 +1240,9 @@ def main():
         line["hist"] = i
         line["pexpr"] = case.get("_pexpr")
         line["impl"] = {"tokens": case.get("_tokens"), "text": case.get("_text")}
+        if "_val" in case:
+            line["impl"]["val"] = case["_val"]
+            line["impl"]["val0"] = case["_val0"]
         lines.append(line)
     with open(a.out + ".ops.jsonl", "w") as f:
         for ln in lines:
